@@ -35,7 +35,7 @@ import numpy as np
 from immutabledict import immutabledict
 
 ID = "C11"
-LEAN_MODULES = ["StraxModel.Props.C11"]
+LEAN_MODULES = ["StraxModel.Props.C11", "StraxModel.Props.C11Gates"]
 TRUSTED = [
     "translator (checks/props/c11.py:regen): AST of Context._target_should_be_saved, of class SaveWhen and of the two _temp_ patterns of "
     "check_cache -> Generated/ShouldSave.lean (untranslatable source: gen_eq_model / gen_values_eq_model reported `stale`, the exhaustive "
@@ -215,7 +215,242 @@ def translate_rules():
 STALE = {}   # generated definition name -> reason, when the current source could not be translated
 
 
+# ---- round 5: the scalar decisions ("gates") of check_cache, StorageFrontend.find / _we_take / _support_superruns, _add_saver
+ERR_KINDS = {"ValueError": "valueError", "DataNotAvailable": "dataNotAvailable", "RuntimeError": "runtimeError", "KeyError": "keyError",
+             "NotImplementedError": "notImplemented"}
+SW_SUBJECT = "target_plugin.save_when[target_i]"
+
+
+def _gate_expr(node, atoms, local):
+    """boolean expression over a fixed vocabulary of atoms (source text -> Lean variable) -> Lean Bool term"""
+    for src, lean in atoms.items():
+        if _same_ast(node, src):
+            return lean
+    if isinstance(node, ast.Name) and node.id in local:
+        return local[node.id]
+    if isinstance(node, ast.Constant) and isinstance(node.value, bool):
+        return "true" if node.value else "false"
+    if isinstance(node, ast.UnaryOp) and isinstance(node.op, ast.Not):
+        return f"(!{_gate_expr(node.operand, atoms, local)})"
+    if isinstance(node, ast.BoolOp):
+        op = " && " if isinstance(node.op, ast.And) else " || "
+        return "(" + op.join(_gate_expr(v, atoms, local) for v in node.values) + ")"
+    if isinstance(node, ast.Compare) and len(node.ops) == 1:
+        def side(n):
+            return "pol" if _same_ast(n, SW_SUBJECT) else _enum_member(n)
+        a, b = side(node.left), side(node.comparators[0])
+        sym = {ast.Eq: "==", ast.NotEq: "!=", ast.Lt: "<", ast.LtE: "<=", ast.Gt: ">", ast.GtE: ">="}.get(type(node.ops[0]))
+        if a and b and sym in ("==", "!="):
+            return f"({a} {sym} {b})"
+        if a and b and sym:
+            return f"(decide (saveWhenValue {a} {sym} saveWhenValue {b}))"
+    raise Untranslatable("expression " + ast.unparse(node)[:100])
+
+
+def _gate_block(stmts, atoms, *, ret=None, cont=None, stop=None, skip=None, end=None, local=None):
+    """statement list -> Lean term.  `ret(stmt)`: term of a Return; `cont`: term of a Continue; `stop(stmt)`: term when the statement
+    ends the translated region (None = not an end marker); `skip(stmt)`: statement without influence on the decision; `end`: term when
+    the list runs out.  Fall-through of an `if` is handled by continuation duplication."""
+    local = dict(local or {})
+    if not stmts:
+        if end is None:
+            raise Untranslatable("region ends without a decision")
+        return end
+    s, rest = stmts[0], stmts[1:]
+    kw = dict(ret=ret, cont=cont, stop=stop, skip=skip, end=end)
+    if stop is not None:
+        t = stop(s)
+        if t is not None:
+            return t
+    if isinstance(s, ast.Expr) and isinstance(s.value, ast.Constant) and isinstance(s.value.value, str):
+        return _gate_block(rest, atoms, local=local, **kw)
+    if isinstance(s, ast.Pass) or (skip is not None and skip(s)):
+        return _gate_block(rest, atoms, local=local, **kw)
+    if isinstance(s, ast.Return):
+        if ret is None:
+            raise Untranslatable("return")
+        return ret(s, local)
+    if isinstance(s, ast.Continue):
+        if cont is None:
+            raise Untranslatable("continue")
+        return cont
+    if isinstance(s, ast.Raise):
+        exc = s.exc.func if isinstance(s.exc, ast.Call) else s.exc
+        name = exc.id if isinstance(exc, ast.Name) else getattr(exc, "attr", None)
+        if name not in ERR_KINDS:
+            raise Untranslatable(f"raise {name}")
+        return f".error .{ERR_KINDS[name]}"
+    if isinstance(s, ast.Assign) and len(s.targets) == 1 and isinstance(s.targets[0], ast.Name):
+        local[s.targets[0].id] = _gate_expr(s.value, atoms, local)      # a local boolean: substituted
+        return _gate_block(rest, atoms, local=local, **kw)
+    if isinstance(s, ast.If):
+        return (f"(if {_gate_expr(s.test, atoms, local)} then {_gate_block(list(s.body) + rest, atoms, local=local, **kw)} "
+                f"else {_gate_block(list(s.orelse) + rest, atoms, local=local, **kw)})")
+    raise Untranslatable("statement " + ast.unparse(s)[:80])
+
+
+def _func(tree, name, inside=None):
+    root = tree if inside is None else inside
+    fns = [n for n in ast.walk(root) if isinstance(n, ast.FunctionDef) and n.name == name]
+    if len(fns) != 1:
+        raise Untranslatable(f"{len(fns)} definitions of {name}")
+    return fns[0]
+
+
+def _message_only(s):
+    """statements that only build an error / log message"""
+    if isinstance(s, (ast.Assign, ast.AugAssign)):
+        tg = s.targets[0] if isinstance(s, ast.Assign) else s.target
+        return isinstance(tg, ast.Name) and tg.id in ("error_message", "message")
+    if isinstance(s, ast.If) and not s.orelse:
+        return all(_message_only(b) for b in s.body)
+    if isinstance(s, ast.Expr) and isinstance(s.value, ast.Call):
+        return ast.unparse(s.value.func) in ("self.log.warning", "self.log.debug", "self.log.info", "self._check_forbidden")
+    return False
+
+
+def translate_gates():
+    """-> dict name -> Lean body, for the definitions of Generated/CheckCache.lean"""
+    ctree = ast.parse((REPO / "strax" / "context.py").read_text())
+    stree = ast.parse((REPO / "strax" / "storage" / "common.py").read_text())
+    front = next((n for n in ast.walk(stree) if isinstance(n, ast.ClassDef) and n.name == "StorageFrontend"), None)
+    if front is None:
+        raise Untranslatable("class StorageFrontend not found")
+    out = {}
+    ret_bool = lambda atoms: (lambda s, local: _gate_expr(s.value, atoms, local))  # noqa: E731
+
+    # StorageFrontend._we_take(data_type)
+    fn = _func(stree, "_we_take", front)
+    atoms = {"data_type in self.exclude": "inExclude", "data_type not in self.exclude": "(!inExclude)", "self.take_only": "takeOnlyGiven",
+             "data_type in self.take_only": "inTakeOnly", "data_type not in self.take_only": "(!inTakeOnly)"}
+    out["weTake"] = _gate_block(list(fn.body), atoms, ret=ret_bool(atoms))
+
+    # StorageFrontend._support_superruns(run_id)
+    fn = _func(stree, "_support_superruns", front)
+    atoms = {'run_id.startswith("_")': "isSuperrun", "self.provide_superruns": "provideSuperruns"}
+    out["supportSuperruns"] = _gate_block(list(fn.body), atoms, ret=ret_bool(atoms))
+
+    # StorageFrontend.find: everything before the first `try` (the lookup itself)
+    fn = _func(stree, "find", front)
+    atoms = {"self._we_take(key.data_type)": "weTake", "self._support_superruns(key.run_id)": "supportSuper", "write": "write",
+             "self.readonly": "readonly"}
+    out["findGate"] = _gate_block(list(fn.body), atoms, skip=_message_only,
+                                  stop=lambda s: ".ok ()" if isinstance(s, ast.Try) else None)
+
+    # Context._add_saver: the body of `for sf in self._sorted_storage`
+    fn = _func(ctree, "_add_saver")
+    loops = [n for n in ast.walk(fn) if isinstance(n, ast.For)]
+    if len(loops) != 1 or not _same_ast(loops[0].iter, "self._sorted_storage") or not (isinstance(loops[0].target, ast.Name) and loops[0].target.id == "sf") or loops[0].orelse:
+        raise Untranslatable("_add_saver is not one loop `for sf in self._sorted_storage`")
+
+    def saver_try(s):
+        if not isinstance(s, ast.Try):
+            return None
+        first = s.body[0] if s.body else None
+        call = first.value if isinstance(first, ast.Assign) else None
+        if not (isinstance(call, ast.Call) and _same_ast(call.func, "sf.saver") and call.args and _same_ast(call.args[0], "key")):
+            raise Untranslatable("try block of _add_saver does not start with `saver = sf.saver(key, ...)`")
+        if s.orelse or s.finalbody or len(s.handlers) != 1 or not _same_ast(s.handlers[0].type, "strax.DataNotAvailable") \
+                or not all(isinstance(b, ast.Pass) for b in s.handlers[0].body):
+            raise Untranslatable("handler of the try block of _add_saver is not `except strax.DataNotAvailable: pass`")
+        # sf.saver(key, ...) = find(key, write=True) first; DataNotAvailable means "this frontend does not save"
+        return ("(match findGate weTake supportSuper true readonly with | .ok _ => .ok true | .error .dataNotAvailable => .ok false "
+                "| .error e => .error e)")
+    out["addSaverTakes"] = _gate_block(list(loops[0].body), {"sf.readonly": "readonly"}, cont=".ok false", stop=saver_try)
+
+    # check_cache: three regions around `if loader:`
+    cc = _func(ctree, "check_cache", _func(ctree, "get_components"))
+    idx = [i for i, s in enumerate(cc.body) if isinstance(s, ast.If) and _same_ast(s.test, "loader") and s.orelse]
+    if len(idx) != 1 or idx[0] == 0:
+        raise Untranslatable("check_cache has no unique top-level `if loader: ... else: ...`")
+    i = idx[0]
+    stored = cc.body[i]
+    if not (stored.body and _same_ast(stored.body[0], "loaders[target_i] = loader", "exec")
+            and not any(isinstance(n, (ast.Raise, ast.Return, ast.Call)) for b in stored.body for n in ast.walk(b))):
+        raise Untranslatable("the `if loader:` branch of check_cache does more than record the loader")
+    flags = {"loader": "loaded", "is_superrun": "isSuperrun", "allow_superrun": "allowSuperrun", "combining": "combining",
+             "target_i.startswith(TEMP_DATA_TYPE_PREFIX)": "isTemp", "time_range is not None": "timeRange"}
+    # (a) the sub-run collection branch just before it
+    sub = cc.body[i - 1]
+    if not (isinstance(sub, ast.If) and not sub.orelse and any(_same_ast(n, "self.make", "eval") for n in ast.walk(sub) if isinstance(n, ast.Attribute))):
+        raise Untranslatable("statement before `if loader:` is not the sub-run collection branch")
+    out["subrunBranch"] = _gate_expr(sub.test, flags, {})
+    # (b) nothing stored: may it be created?
+    atoms = dict(flags, **{'"*" in self.context_config["forbid_creation_of"]': "starIn",
+                           'target_i in self.context_config["forbid_creation_of"]': "nameIn"})
+    out["createGate"] = _gate_block(list(stored.orelse), atoms, skip=_message_only,
+                                    stop=lambda s: ".ok ()" if _same_ast(s, "to_compute[target_i] = target_plugin", "exec") else None)
+    # (c) after the recursion: is the saver loop reached?
+    atoms = dict(flags, **{'self.context_config["write_superruns"]': "writeSuperruns",
+                           "self._target_should_be_saved(target_plugin, target_i, final_targets, save)": "should",
+                           "self._target_should_be_saved(target_plugin, target_i, targets, save)": "should",
+                           "target_plugin.multi_output": "multiOutput", "selection is not None": "selection",
+                           "keep_columns is not None": "keepColumns", "drop_columns is not None": "dropColumns",
+                           'any([len(v) > 0 for k, v in self._find_options.items() if "fuzzy" in k])': "fuzzy",
+                           'self.context_config["allow_incomplete"]': "allowIncomplete"})
+
+    def skip_c(s):
+        if isinstance(s, ast.Assign) and len(s.targets) == 1 and isinstance(s.targets[0], ast.Name) and s.targets[0].id == "current_plugin_to_savers":
+            return True
+        return _message_only(s)
+
+    def ret_c(s, local):
+        if s.value is not None:
+            raise Untranslatable("check_cache returns a value")
+        return "false"
+    out["saveGate"] = _gate_block(list(cc.body[i + 1:]), atoms, ret=ret_c, skip=skip_c,
+                                  stop=lambda s: "true" if isinstance(s, ast.If) and _same_ast(s.test, "not combining") else None)
+    return out
+
+
+GATE_SIGS = [
+    ("weTake", "(inExclude takeOnlyGiven inTakeOnly : Bool) : Bool", "StorageFrontend._we_take"),
+    ("supportSuperruns", "(isSuperrun provideSuperruns : Bool) : Bool", "StorageFrontend._support_superruns"),
+    ("findGate", "(weTake supportSuper write readonly : Bool) : Except Err Unit",
+     "StorageFrontend.find up to the lookup (`.ok ()` = goes on to look the key up)"),
+    ("addSaverTakes", "(readonly weTake supportSuper : Bool) : Except Err Bool",
+     "one round of the loop of Context._add_saver: does this frontend get a saver"),
+    ("subrunBranch", "(loaded isSuperrun allowSuperrun combining isTemp : Bool) : Bool",
+     "check_cache: condition of the sub-run collection branch"),
+    ("createGate", "(timeRange : Bool) (pol : SaveWhen) (starIn isTemp nameIn : Bool) : Except Err Unit",
+     "check_cache, nothing stored: the checks before the type is scheduled for computation"),
+    ("saveGate", "(isTemp loaded isSuperrun writeSuperruns should multiOutput timeRange selection keepColumns dropColumns fuzzy "
+                 "allowIncomplete : Bool) : Bool",
+     "check_cache after the recursion: is the saver loop reached (`should` = result of the first _target_should_be_saved call, "
+     "which is evaluated only when isTemp, loaded and the superrun test let it)"),
+]
+
+
+def regen_gates(ctx):
+    out = LEAN / "StraxModel" / "Generated" / "CheckCache.lean"
+    try:
+        bodies = translate_gates()
+    except (Untranslatable, SyntaxError, OSError) as e:
+        ctx.translator["check_cache.gates"] = f"untranslatable: {e}"
+        STALE["gates"] = str(e)
+        ctx.note(f"translator could not handle the gates of check_cache / find / _add_saver ({e}); Generated/CheckCache.lean is the PREVIOUS translation")
+        ctx.violation("translator:check_cache_gates", "translator", None, {"reason": str(e)},
+                      "translator regenerates Generated/CheckCache.lean (weTake, supportSuperruns, findGate, addSaverTakes, subrunBranch, "
+                      "createGate, saveGate) from the source of check_cache, StorageFrontend.find / _we_take / _support_superruns, _add_saver", False)
+        return
+    ctx.translator["check_cache.gates"] = "ok"
+    text = ("-- GENERATED by checks/props/c11.py:regen from /repo/strax/context.py (check_cache, Context._add_saver) and\n"
+            "-- /repo/strax/storage/common.py (StorageFrontend.find, _we_take, _support_superruns). Do not edit.\n"
+            "import StraxModel.Generated.ShouldSave\n"
+            "namespace Strax.Generated\n"
+            "open Strax Strax.Components\n\n"
+            + "".join(f"/-- {doc} -/\ndef {name} {sig} :=\n  {bodies[name]}\n\n" for name, sig, doc in GATE_SIGS)
+            + "end Strax.Generated\n")
+    if not out.exists() or out.read_text() != text:
+        out.write_text(text)
+
+
 def regen(ctx):
+    regen_gates(ctx)
+    _regen_should_save(ctx)
+
+
+def _regen_should_save(ctx):
     out = LEAN / "StraxModel" / "Generated" / "ShouldSave.lean"
     try:
         temp_deps, star = translate_rules()
